@@ -621,13 +621,7 @@ theorem kwBounds_d34 (cfg : Cfg) (hg : lookupS (skey "number") cfg.types = some 
         not_le, if_true, if_false, Bool.false_eq_true]
 theorem nothing_out (b : Option Nat) (st : RState) :
     (nothing b st).errs = [] ∧ (nothing b st).stop = .done ∨ (nothing b st).stop = .budget := by
-  unfold nothing emit
-  cases b with
-  | none => simp
-  | some k =>
-    by_cases hk : 0 < k
-    · simp [hk]
-    · simp [hk]
+  left; exact ⟨rfl, rfl⟩
 
 
 theorem multipleOfFailed_float_divisor (i d : Num) (hdf : d.isFloat = true) (hd : d.isZero = false)
